@@ -19,6 +19,7 @@ import (
 	"bytes"
 	"fmt"
 	"go/types"
+	"strconv"
 	"strings"
 
 	"golang.org/x/tools/go/ssa"
@@ -287,9 +288,14 @@ func (in *interp) equals(t types.Type, x, y value) *sym.Term {
 		if ys, ok := y.(string); ok {
 			return c.Bool(x == ys)
 		}
+		if yf, ok := y.(*fmtstr); ok {
+			return in.fmtstrEq(yf, x)
+		}
 		return in.bytesEq(in.strBytes(x), in.strBytes(y))
 	case *symstr:
 		return in.bytesEq(x.b, in.strBytes(y))
+	case *fmtstr:
+		return in.fmtstrEq(x, y)
 	case *value:
 		return c.Bool(x == y.(*value))
 	case *channel:
@@ -663,4 +669,77 @@ func copyVal(v value) value {
 		return v
 	}
 	return v
+}
+
+// fmtstrEq compares a piece string (literals with decimal renderings of integer terms in between)
+// with another string value: with itself, with a piece string of the same literal skeleton (equal
+// iff the numbers are equal; the skeletons the code under check produces separate numbers by
+// non-digit text), or with a concrete string (matched against the skeleton).
+func (in *interp) fmtstrEq(x *fmtstr, y value) *sym.Term {
+	c := in.ctx
+	switch y := y.(type) {
+	case *fmtstr:
+		if x == y {
+			return c.T
+		}
+		if len(x.lit) != len(y.lit) {
+			return c.F
+		}
+		for i := range x.lit {
+			if x.lit[i] != y.lit[i] {
+				return c.F
+			}
+		}
+		r := c.T
+		for i := range x.num {
+			a, b := x.num[i], y.num[i]
+			if a.W != b.W {
+				a, b = c.Resize(a, 64, x.sign[i]), c.Resize(b, 64, y.sign[i])
+			}
+			r = c.And(r, c.Eq(a, b))
+		}
+		return r
+	case string:
+		rest := y
+		if !strings.HasPrefix(rest, x.lit[0]) {
+			return c.F
+		}
+		rest = rest[len(x.lit[0]):]
+		r := c.T
+		for i, n := range x.num {
+			j := 0
+			if x.sign[i] && j < len(rest) && rest[j] == '-' {
+				j++
+			}
+			for j < len(rest) && rest[j] >= '0' && rest[j] <= '9' {
+				j++
+			}
+			digits := rest[:j]
+			rest = rest[j:]
+			if !strings.HasPrefix(rest, x.lit[i+1]) {
+				return c.F
+			}
+			rest = rest[len(x.lit[i+1]):]
+			var t *sym.Term
+			if x.sign[i] {
+				v, err := strconv.ParseInt(digits, 10, 64)
+				if err != nil {
+					return c.F
+				}
+				t = c.Const(n.W, uint64(v))
+			} else {
+				v, err := strconv.ParseUint(digits, 10, 64)
+				if err != nil || (len(digits) > 1 && digits[0] == '0') {
+					return c.F
+				}
+				t = c.Const(n.W, v)
+			}
+			r = c.And(r, c.Eq(n, t))
+		}
+		if rest != "" {
+			return c.F
+		}
+		return r
+	}
+	panic(fmt.Sprintf("comparing a formatted string with %T", y))
 }
